@@ -465,7 +465,9 @@ func init() {
 					}
 				}},
 				{Name: "quantity-arithmetic", N: 1, Note: "all ordered pairs of a quantity pool x {+,-}: only within one unit", Run: func(i int, r *core.Rec) {
-					pool := []struct{ n, u string }{{"1", "mg"}, {"2.5", "mg"}, {"1", "kg"}, {"3", "days"}, {"1", "day"}, {"1", "week"}, {"7", "days"}, {"1", "1"}, {"0", "mg"}, {"-1", "mg"}}
+					pool := []struct{ n, u string }{{"1", "mg"}, {"2.5", "mg"}, {"1", "kg"}, {"3", "days"}, {"1", "day"}, {"1", "week"}, {"7", "days"}, {"1", "1"}, {"0", "mg"}, {"-1", "mg"},
+						// units that differ only in letter case, only by a trailing s, or by a prefix: different units all the same
+						{"1", "Mg"}, {"1", "ms"}, {"1", "m"}, {"1", "Ms"}, {"1", "Pa"}, {"1", "pa"}, {"1", "Day"}, {"1", "g"}, {"1", "mm"}, {"1", "mms"}}
 					for _, a := range pool {
 						for _, b := range pool {
 							for _, op := range []string{"+", "-"} {
